@@ -26,21 +26,35 @@ theorem json_scanner_terminates (qs : List Gen.Json.Query) (cap : Nat) (raw : By
     JsonIdx.parseIdx qs cap raw ≠ .fuel := parseIdx_terminates qs cap raw
 
 set_option maxRecDepth 8000 in
-/-- **regenerated tie**: the index and slice expressions of every function of parser.go in the current
-    source, in source order, are the ones `Model/JsonIdx.lean` transliterates -/
-theorem json_index_expressions_as_modelled :
-    Gen.Writes.indexExprsJson = [
-  "json.LooksLikeObjectOrArray: raw[i] | raw[i] | raw[i]",
-  "json.Parse: queries[queryType]",
-  "json.consumeAny: b[n:] | b[n] | b[n:] | b[n:] | b[n:] | b[n:] | b[n:] | b[n:] | b[n:] | b[n:]",
-  "json.consumeArray: b[n:] | b[n:] | b[n] | p.currPath[:len(p.currPath)-1] | b[n:] | b[n:] | b[n] | p.currPath[:len(p.currPath)-1]",
-  "json.consumeConst: b[i]",
-  "json.consumeNumber: b[0] | b[1:] | b[0] | b[1:] | b[0] | b[1:] | b[0] | b[1:] | b[0] | b[0] | b[1:] | b[0] | b[0] | b[1:] | b[0] | b[1:]",
-  "json.consumeObject: b[n:] | b[n:] | b[n] | b[n] | b[n:] | b[n:n+keyLen-1] | b[n:] | b[n:] | b[n] | b[n:] | b[n:] | b[n:] | qs[queryMatched] | b[n:n+valLen] | b[n:] | b[n] | p.currPath[:len(p.currPath)-1] | p.currPath[:len(p.currPath)-1]",
-  "json.consumeSpace: b[0] | b[1:]",
-  "json.consumeString: b[n:] | b[n] | b[n:] | b[n] | b[n:] | b[n]",
-  "json.eq: path1[i] | path2[i]",
-  "json.queryPathMatch: qs[i]",
-  "json.reset: p.currPath[0:0]"] := by decide
+/-- what `Model/JsonIdx.lean` transliterates: per function of parser.go, the index and slice expressions it may
+    evaluate (as a set) -/
+def modelledJsonIndexSets : List (String × List String) := [
+  ("json.LooksLikeObjectOrArray", ["raw[i]"]),
+  ("json.Parse", ["queries[queryType]"]),
+  ("json.consumeAny", ["b[n:]", "b[n]"]),
+  ("json.consumeArray", ["b[n:]", "b[n]", "p.currPath[:len(p.currPath)-1]"]),
+  ("json.consumeConst", ["b[i]"]),
+  ("json.consumeNumber", ["b[0]", "b[1:]"]),
+  ("json.consumeObject", ["b[n:]", "b[n:n+keyLen-1]", "b[n:n+valLen]", "b[n]", "p.currPath[:len(p.currPath)-1]", "qs[queryMatched]"]),
+  ("json.consumeSpace", ["b[0]", "b[1:]"]),
+  ("json.consumeString", ["b[n:]", "b[n]"]),
+  ("json.eq", ["path1[i]", "path2[i]"]),
+  ("json.queryPathMatch", ["qs[i]"]),
+  ("json.reset", ["p.currPath[0:0]"])]
+
+/-- every index / slice expression of `found` is one the model knows for that function; a function the model
+    does not know must not index at all -/
+def withinModelled (modelled found : List (String × List String)) : Bool :=
+  found.all fun fe =>
+    match modelled.lookup fe.1 with
+    | some xs => fe.2.all (fun e => xs.contains e)
+    | none => fe.2.isEmpty
+
+/-- **regenerated tie**: every index and slice expression of every function of parser.go in the current source
+    is one of those `Model/JsonIdx.lean` transliterates for that function.  (A set inclusion, not an equality: an
+    expression that was dropped, repeated or moved — `len(b[n:]) > 0` rewritten as `n < len(b)` — needs no new
+    reading; a new expression, or any indexing in a new function, does.) -/
+theorem json_index_expressions_within_modelled :
+    withinModelled modelledJsonIndexSets Gen.Writes.indexSetsJson = true := by decide
 
 end Mime.C01
